@@ -62,7 +62,8 @@ fn run() -> Result<ExitCode> {
     // clap 3 panics ("unexpected invalid UTF-8 code point") when an argument that is not valid
     // UTF-8 follows an unknown flag, instead of reporting its usual error. Reject such command
     // lines up front, the way clap does in all other cases.
-    if std::env::args_os().any(|arg| arg.to_str().is_none()) {
+    // (the program name, argv[0], is not an argument and may be any path)
+    if std::env::args_os().skip(1).any(|arg| arg.to_str().is_none()) {
         eprintln!("error: Invalid UTF-8 was detected in one or more arguments");
         return Ok(2);
     }
